@@ -14,6 +14,7 @@ from .common import *
 from .helpers_r3 import *
 
 EXPLANATION = __doc__
+TECHNIQUE = "static analysis of rustc MIR facts: dominance/guard and value-provenance rules plus exact symbolic decision tables of loop-free guard functions (exhaustive over weak orderings)"
 
 
 def is_ty(F, root, suffix):
